@@ -51,6 +51,7 @@ from .ast_nodes import (
 )
 from .opcodes import OpCode
 from .values import UNDEFINED
+from .errors import JSError
 
 
 @dataclass
@@ -154,10 +155,19 @@ class Compiler:
         self.bytecode.append(opcode)
         if arg is not None:
             if opcode in self._JUMP_OPCODES:
+                if not 0 <= arg <= 0xFFFF:
+                    raise JSError(
+                        f"Function too large: jump target {arg} exceeds the 65535-byte bytecode limit"
+                    )
                 # 16-bit little-endian for jump targets
                 self.bytecode.append(arg & 0xFF)
                 self.bytecode.append((arg >> 8) & 0xFF)
             else:
+                if not 0 <= arg <= 0xFF:
+                    raise JSError(
+                        f"Function too large: operand {arg} of {opcode.name} exceeds 255 "
+                        "(too many constants, variables, arguments or literal elements)"
+                    )
                 self.bytecode.append(arg)
         return pos
 
@@ -184,6 +194,10 @@ class Compiler:
         """
         if target is None:
             target = len(self.bytecode)
+        if not 0 <= target <= 0xFFFF:
+            raise JSError(
+                f"Function too large: jump target {target} exceeds the 65535-byte bytecode limit"
+            )
         self.bytecode[pos + 1] = target & 0xFF  # Low byte
         self.bytecode[pos + 2] = (target >> 8) & 0xFF  # High byte
 
